@@ -46,7 +46,7 @@ theorem rankOf_sound_aux : ∀ (t : Term),
     subst hx
     simp only [rankOf, annRank, Option.map_eq_some_iff] at hn
     obtain ⟨sh, hsh, rfl⟩ := hn
-    exact hs.1.2 sh hsh
+    exact (hs.1.2 sh hsh).1
   | boolc b => exact ⟨by intro _ n hn; simp [rankOf] at hn, by intro a r h; cases h⟩
   | nil => exact ⟨by intro _ n hn; simp [rankOf] at hn, by intro a r h; cases h⟩
   | cons t ts iht _ =>
@@ -62,7 +62,7 @@ theorem rankOf_sound_aux : ∀ (t : Term),
       intro hr
       simp only [annRank, Option.map_eq_some_iff] at hr
       obtain ⟨sh, hsh, rfl⟩ := hr
-      exact hann.2 sh hsh
+      exact (hann.2 sh hsh).1
     -- the single-argument pass-through: the argument's rank is known and it is proper
     have pass : ∀ (t : Term), args = .cons t .nil → rankOf t = some n →
         ∃ y, eval I ρ args = [y] ∧ y.rank = n := by
@@ -196,5 +196,116 @@ theorem dtypeOf_sound_aux : ∀ (t : Term),
     | reshape => exact fromAnn (by simpa [dtypeOf] using hn)
     | reduce nm ax => exact fromAnn (by simpa [dtypeOf] using hn)
     | opq op att k => exact fromAnn (by simpa [dtypeOf] using hn)
+
+/-! ### shape analysis -/
+
+theorem shapeOf_some_proper {t : Term} {sh : List Dim} (h : shapeOf t = some sh) :
+    proper t = true := by
+  cases t <;> simp_all [shapeOf, proper]
+
+def ShapeStmt (t : Term) : Prop :=
+  AnnotSound I ρ t → ∀ sh, shapeOf t = some sh → ∀ x, eval I ρ t = [x] → shapeOK I sh x
+
+theorem shapeOf_sound_aux : ∀ (t : Term),
+    ShapeStmt I ρ t ∧ (∀ a rest, t = .cons a rest → ShapeStmt I ρ a) := by
+  intro t
+  induction t with
+  | leaf id ann s =>
+    refine ⟨?_, by intro a r h; cases h⟩
+    intro hs sh hn x hx
+    simp only [eval, List.cons.injEq, and_true] at hx
+    subst hx
+    exact hs.1.2 sh (by simpa [shapeOf] using hn)
+  | boolc b => exact ⟨by intro _ n hn; simp [shapeOf] at hn, by intro a r h; cases h⟩
+  | nil => exact ⟨by intro _ n hn; simp [shapeOf] at hn, by intro a r h; cases h⟩
+  | cons t ts iht _ =>
+    refine ⟨by intro _ n hn; simp [shapeOf] at hn, ?_⟩
+    intro a r h; cases h; exact iht.1
+  | app h ann args ih =>
+    refine ⟨?_, by intro a r h; cases h⟩
+    intro hs sh hn x hx
+    simp only [eval, List.cons.injEq, and_true] at hx
+    subst hx
+    obtain ⟨hargs, hann⟩ := hs
+    have fromAnn : ann.shape = some sh → shapeOK I sh (applyHead I h (eval I ρ args)) :=
+      fun hr => hann.2 sh hr
+    have pass : ∀ (t : Term) (sh' : List Dim), args = .cons t .nil → shapeOf t = some sh' →
+        ∃ y, eval I ρ args = [y] ∧ shapeOK I sh' y := by
+      intro t sh' ht hr
+      subst ht
+      have hst := ih.2 t .nil rfl
+      simp only [AnnotSound] at hargs
+      obtain ⟨y, hy⟩ := eval_proper I ρ (shapeOf_some_proper hr)
+      exact ⟨y, by simp [eval, hy], hst hargs.1 sh' hr y hy⟩
+    cases h with
+    | transpose p =>
+      cases args with
+      | cons t ts =>
+        cases ts with
+        | nil =>
+          simp only [shapeOf] at hn
+          split at hn
+          · rename_i sh0 hsh0
+            split at hn
+            · rename_i hc
+              simp only [Bool.and_eq_true, beq_iff_eq] at hc
+              obtain ⟨hv, hlen⟩ := hc
+              simp only [Option.some.injEq] at hn
+              subst hn
+              obtain ⟨y, hy, hr, hd⟩ := pass t sh0 rfl hsh0
+              rw [hy]
+              refine ⟨by simp [applyHead, transpose, hr, hlen], ?_⟩
+              intro k hk
+              simp only [List.length_map] at hk
+              have hpk : permFn p k < sh0.length := by
+                rw [← hlen]; exact permFn_lt hv hk
+              have := hd (permFn p k) hpk
+              simp only [applyHead, transpose, List.getElem_map]
+              have e : sh0.getD p[k] Dim.unk = sh0[permFn p k] := by
+                simp [permFn, hk, List.getD_eq_getElem?_getD]
+                rw [List.getElem?_eq_getElem (by simpa [permFn, hk] using hpk)]
+                simp
+              rw [e]; exact this
+            · simp at hn
+          · simp at hn
+        | _ => simp [shapeOf] at hn
+      | _ => simp [shapeOf] at hn
+    | cast to =>
+      cases args with
+      | cons t ts =>
+        cases ts with
+        | nil =>
+          obtain ⟨y, hy, hr⟩ := pass t sh rfl (by simpa [shapeOf] using hn)
+          rw [hy]; exact hr
+        | _ => simp [shapeOf] at hn
+      | _ => simp [shapeOf] at hn
+    | identity =>
+      cases args with
+      | cons t ts =>
+        cases ts with
+        | nil =>
+          obtain ⟨y, hy, hr⟩ := pass t sh rfl (by simpa [shapeOf] using hn)
+          rw [hy]; exact hr
+        | _ => simp [shapeOf] at hn
+      | _ => simp [shapeOf] at hn
+    | pw nm att =>
+      cases args with
+      | cons t ts =>
+        cases ts with
+        | nil =>
+          obtain ⟨y, hy, hr, hd⟩ := pass t sh rfl (by simpa [shapeOf] using hn)
+          rw [hy]
+          obtain ⟨pr, pd, _⟩ := pw_unary_spec (I.fn nm att) y
+          exact ⟨by simp [applyHead, pr, hr], by intro k hk; simp only [applyHead, pd]; exact hd k hk⟩
+        | _ => exact fromAnn (by simpa [shapeOf] using hn)
+      | _ => exact fromAnn (by simpa [shapeOf] using hn)
+    | castLike => exact fromAnn (by simpa [shapeOf] using hn)
+    | reshape => exact fromAnn (by simpa [shapeOf] using hn)
+    | reduce nm ax => exact fromAnn (by simpa [shapeOf] using hn)
+    | opq op att k => exact fromAnn (by simpa [shapeOf] using hn)
+
+theorem shapeOf_sound (t : Term) (hs : AnnotSound I ρ t) (sh : List Dim)
+    (hn : shapeOf t = some sh) (x : Tensor α) (hx : eval I ρ t = [x]) : shapeOK I sh x :=
+  (shapeOf_sound_aux I ρ t).1 hs sh hn x hx
 
 end J2O.C02
